@@ -336,7 +336,8 @@ def scripts_c10(tier, rng):
                     tail += ["vote 1000000 0", "purge 2000000 5000000", "app 2000000,5000001,aa", "flush 1",
                              "widle", "drop", "open", "st", READALL]
                 note = f"note c10 cut {nid} {ln} {','.join(map(str, bnd))} {p} 0 {tr}"
-                out.append((n2, pre + [note, "dir", f"cfg tr={tr}", f"fsop cut {nid} {p}", "fsop settle"] + tail))
+                extra = rng.choice(["", "", "", " ms=256", " ms=100 rb=4096", " mr=2 rb=3", " ms=64"])
+                out.append((n2, pre + [note, "dir", f"cfg tr={tr}{extra}", f"fsop cut {nid} {p}", "fsop settle"] + tail))
             zs = [(b, m) for b in bnd for m in ([1, 2, 27, 28, 40] if tier == "quick" else
                                                  [1, 2, 3, 11, 12, 13, 27, 28, 29, 40, 1023, 1024, 1025, 33000,
                                                   65535, 65536, 65537, 200000])]
@@ -351,7 +352,8 @@ def scripts_c10(tier, rng):
                     tail += ["vote 1000000 0", "purge 2000000 5000000", "app 2000000,5000001,aa", "flush 1",
                              "widle", "drop", "open", "st", READALL]
                 note = f"note c10 zero {nid} {ln} {','.join(map(str, bnd))} {b} {m} {tr}"
-                out.append((n2, pre + [note, "dir", f"cfg tr={tr}", f"fsop zero {nid} {b} {m}", "fsop settle"] + tail))
+                extra = rng.choice(["", "", "", " ms=256", " ms=100 rb=4096", " mr=2 rb=3", " ms=64"])
+                out.append((n2, pre + [note, "dir", f"cfg tr={tr}{extra}", f"fsop zero {nid} {b} {m}", "fsop settle"] + tail))
     return out, {"bases": nb}
 
 
@@ -417,6 +419,13 @@ def oracle_c10(script, ig, mg):
         return []
     if line != "open ok":
         return [("open-failed-on-cut-or-zero-tail", {"line": line, "fsop": fs[-1], "tr": tr})]
+    # writes continue from there: the journal offsets are kept, recovery never starts a chunk below
+    # the oldest one that was there
+    if before_dir and after_dir:
+        lo_b = min(int(p.split(":")[0]) for p in before_dir.split()[1:])
+        ids_a = [int(p.split(":")[0]) for p in after_dir.split()[1:]]
+        if ids_a and min(ids_a) < lo_b:
+            return [("recovery-restarted-the-journal-offsets", {"before": before_dir, "after": after_dir, "fsop": fs[-1]})]
     cands = {}
     hi = None
     for s in mg[oi].spec:
